@@ -4,6 +4,7 @@ CONSTANTS
   TextSyms = {"a", "b"}
   MaxP = 5
   MaxT = 7
+  MaxL = 2
   Dev = {}
 INIT GenInit
 NEXT GenNext
